@@ -228,6 +228,10 @@ def gen_text(rng, types, malformed=None, no_stops=False, exact_tempo=False):
     return text
 
 
+WIDE_TYPES = [("dance-couple", 8), ("pump-couple", 10), ("dance-single", 5), ("kb7-single", 8), ("dance-double", 6),
+              ("bm-versus5", 12), ("pump-routine", 10), ("dance-couple", 6)]
+
+
 def generate(rng, tier):
     n = 260 if tier == "quick" else 6000
     types = G.supported_types()
@@ -236,8 +240,12 @@ def generate(rng, tier):
         r = rng.random()
         ex = rng.random() < 0.5
         if r < 0.12:
-            mal = rng.choice(["open", "stray", "rows6", "offgrid", "wide", "nooffset"])
-            cases.append({"kind": "read", "dom": False, "cmp_bpms": ex, "text": gen_text(rng, types, malformed=mal, exact_tempo=ex)})
+            mal = rng.choice(["open", "stray", "rows6", "offgrid", "wide", "nooffset", "widetype", "widetype"])
+            # "widetype": every row of a chart wider / narrower than the chart type's entry in reamber's key table (dance-couple
+            # files in the wild have 8 columns, the table says 4), or a type without an entry: outside the property's
+            # "supported chart type / key count", so model-vs-implementation only (the reader takes the columns from the rows)
+            cases.append({"kind": "read", "dom": False, "cmp_bpms": ex,
+                          "text": gen_text(rng, WIDE_TYPES if mal == "widetype" else types, malformed=mal, exact_tempo=ex)})
         elif r < 0.20:
             cases.append({"kind": "read", "dom": True, "cmp_bpms": ex, "text": gen_text(rng, types, no_stops=True, exact_tempo=ex)})
         else:
